@@ -86,6 +86,8 @@ def body(ctx):
     specs.append(dict(seed=5, maxdata=1024 * 1024, rid='random', frag='whole', ops=[dict(api='push', size=3 * 1024 * 1024 + 17, src='bytesio', path='/big', mtime=7)]))
     specs.append(dict(seed=6, maxdata=4096, rid='high', frag='random', lid0=2 ** 32 - 2,
                       ops=[dict(api='shell', decode=False, cmd='\xff' * 40, chunks=['ff' * 4096]), dict(api='exec_out', decode=False, cmd='y', chunks=[])]))
+    # one message whose payload bytes sum to more than 2^32 (21 MB of U+FFFF as a command line): the checksum field is the sum modulo 2^32
+    specs.append(dict(seed=9, maxdata=1024 * 1024, rid='plus', frag='whole', ambient=False, ops=[dict(api='exec_out', decode=False, cmd='\uffff' * 7000000, chunks=[b'ok'.hex()])]))
     # payload lengths that are exact multiples of common block sizes (4 KiB .. 256 KiB), and their neighbours
     for e_ in range(12, 19):
         for d_ in (-1, 0, 1):
